@@ -36,8 +36,35 @@ class CallGraph:
                 self.by_name.setdefault(f.name, []).append(fi)
                 if getattr(f, "_cls", None):
                     self.methods.setdefault(f.name, []).append(fi)
+        # class hierarchy by name (bases written as plain names)
+        self.bases = {}
+        for mn, m in self.model.mods.items():
+            if not mn.startswith("ctparse"):
+                continue
+            for cname, cnode in m.classes.items():
+                self.bases.setdefault(cname.split(".")[-1], set()).update(
+                    b.id if isinstance(b, ast.Name) else (b.attr if isinstance(b, ast.Attribute) else "?")
+                    for b in cnode.bases)
         for fi in self.funcs.values():
             self._resolve(fi)
+
+    def _ancestors(self, cls):
+        out, todo = set(), [cls]
+        while todo:
+            c = todo.pop()
+            for b in self.bases.get(c, ()):
+                if b not in out:
+                    out.add(b)
+                    todo.append(b)
+        return out
+
+    def _family(self, cls):
+        """the class, its ancestors and its descendants (where a method called on self can live)"""
+        fam = {cls} | self._ancestors(cls)
+        for c in self.bases:
+            if cls in self._ancestors(c):
+                fam.add(c)
+        return fam
 
     def _own_nodes(self, fnode):
         """Nodes of the function body excluding nested function bodies."""
@@ -71,7 +98,16 @@ class CallGraph:
                 if isinstance(f, ast.Name):
                     names.append(("name", f.id))
                 elif isinstance(f, ast.Attribute):
-                    names.append(("attr", f.attr))
+                    own_cls = getattr(fi.node, "_cls", None)
+                    recv = f.value
+                    first = fi.node.args.args[0].arg if fi.node.args.args else None
+                    if own_cls and isinstance(recv, ast.Call) and isinstance(recv.func, ast.Name) \
+                            and recv.func.id == "super":
+                        names.append(("in", f.attr, frozenset(self._ancestors(own_cls))))
+                    elif own_cls and isinstance(recv, ast.Name) and recv.id == first and first in ("self", "cls"):
+                        names.append(("in", f.attr, frozenset(self._family(own_cls))))
+                    else:
+                        names.append(("attr", f.attr))
                 # function values passed as arguments (timeit(_match_regex))
                 for a in n.args:
                     if isinstance(a, ast.Name):
@@ -81,8 +117,17 @@ class CallGraph:
                 for m in self.methods.get(n.attr, []):
                     if any(isinstance(d, ast.Name) and d.id == "property" for d in m.node.decorator_list):
                         fi.calls.add(m.key)
-            for kind, nm in names:
+            for ent in names:
+                kind, nm = ent[0], ent[1]
                 fi.call_names.add(nm)
+                if kind == "in":
+                    fam = ent[2]
+                    hit = [m for m in self.methods.get(nm, []) if getattr(m.node, "_cls", None) in fam]
+                    if not hit and "?" in fam:
+                        hit = self.methods.get(nm, [])      # a base outside the package: unknown
+                    for m in hit:
+                        fi.calls.add(m.key)
+                    continue
                 if kind == "name":
                     v = env.get(nm)
                     if isinstance(v, e1.FuncRef):
